@@ -28,6 +28,19 @@ func ExploreS1(t *testing.T, run *evid.Run, agg *mc.Agg, prefix string, scens []
 				w.EvalQuiescent()
 				w.Teardown()
 			},
+			Observe: func(x *vsync.Exec) []string {
+				var tags []string
+				seen := map[string]bool{}
+				for _, l := range x.Log {
+					for _, k := range []string{"RecvMsg(", "Opened(", "Closed", "AckMsg(", "ClearMsg(", "SetPeer(", "ClearPeer(", "relay: dropped"} {
+						if strings.Contains(l, k) && !seen[k] {
+							seen[k] = true
+							tags = append(tags, "saw "+strings.TrimSuffix(k, "("))
+						}
+					}
+				}
+				return tags
+			},
 			Check: func(x *vsync.Exec) string {
 				if x.Deadlock {
 					return prefix + "deadlock"
